@@ -3,6 +3,7 @@ package props
 // C06 IDL parser: nothing ill-formed accepted, nothing silently ignored.
 
 import (
+	"os"
 	"fmt"
 	"strings"
 	"testing"
@@ -208,9 +209,12 @@ func TestC06Rapid(t *testing.T) {
 // compact and the commented layout.
 func TestC06Mutants(t *testing.T) {
 	shard, nshards := Shard()
-	stride := 1
+	stride := 11 // the full enumeration x all single-token mutants is about 10^8 parses; the thorough tier takes every 11th tree
 	if !Thorough() {
 		stride = 211
+	}
+	if os.Getenv("VERIF_C06_FULL") != "" {
+		stride = 1
 	}
 	type item struct {
 		s    string
